@@ -223,6 +223,7 @@ def run(ctx):
                "the infix form builds %s(left operand, right operand)" % nm if order_ok.get(nm) else
                "the operands of the infix form are not passed in (left, right) order")
     # make_term's function prefixes
+    infixscan.left_right_split(ctx, "R2")
     # names make_term treats as built-in functions: string literals `name(` it (or a constant table it reads) holds
     prefixes = {x.rstrip("(") for x in prog.str_literals(MT) if x.endswith("(") and len(x) > 1 and x[:-1].isidentifier()}
     ctx.ob("R2", "function-names-agree", bool(prefixes) and prefixes <= set(name2eval), ctx.where(MT),
